@@ -45,7 +45,7 @@ Proof. intros []; vm_compute; reflexivity. Qed.
 
 Lemma step_canon s l : stepS s l = stepS s (canon_label l).
 Proof.
-  destruct l as [|f r|o|e| |]; try reflexivity.
+  destruct l as [|f r|o|e| | |]; try reflexivity.
   - destruct r; [|reflexivity]. unfold stepS. cbn [canon_label step]. destruct (ppc s); try reflexivity; try (destruct f; reflexivity).
   - destruct o as [| |w|]; try reflexivity. destruct w as [|[|w]]; try reflexivity.
   - cbn [canon_label]. destruct (existsb (event_eqb e) ext_events) eqn:E; [reflexivity|]. unfold stepS. cbn [step]. rewrite E.
@@ -54,15 +54,16 @@ Qed.
 
 Lemma canon_in l : In (canon_label l) (Ext SPA_MAN_ENTER :: all_labels).
 Proof.
-  destruct l as [|f r|o|e| |]; cbn [canon_label].
+  destruct l as [|f r|o|e| | |]; cbn [canon_label].
   - right. left. reflexivity.
   - destruct r; [right; do 3 right; left; reflexivity|]. destruct f; right; [right; left; reflexivity|do 2 right; left; reflexivity].
   - destruct o as [| |w|]; right; [do 4 right; left; reflexivity|do 5 right; left; reflexivity| |do 9 right; left; reflexivity].
     destruct w as [|[|w]]; [do 6 right; left; reflexivity|do 7 right; left; reflexivity|do 8 right; left; reflexivity].
-  - destruct (existsb (event_eqb e) ext_events) eqn:E; [|left; reflexivity]. right. do 12 right. apply in_map.
+  - destruct (existsb (event_eqb e) ext_events) eqn:E; [|left; reflexivity]. right. do 13 right. apply in_map.
     apply existsb_exists in E. destruct E as [x [Hx Ex]]. assert (e = x) by (destruct e, x; cbn in Ex; try discriminate; reflexivity). subst. exact Hx.
   - right. do 10 right. left. reflexivity.
   - right. do 11 right. left. reflexivity.
+  - right. do 12 right. left. reflexivity.
 Qed.
 
 Global Opaque step handle reset.
@@ -99,7 +100,7 @@ Definition inv_reset (s : mst) : bool :=
    delivered has been followed by its FINISHED event *)
 Definition inv_phase_closed (s : mst) : bool :=
   match ppc s with
-  | PIdle | PDead => negb (loc_open s) && negb (conn_open s)
+  | PIdle | PDead | PNotFound => negb (loc_open s) && negb (conn_open s)
   | _ => true end.
 
 Lemma all_inv_connected : forallb inv_connected reach = true. Proof. vm_compute. reflexivity. Qed.
